@@ -14,14 +14,14 @@ from ..world import Cfg, World
 ID = "C17"
 LEVEL = "model_checking"
 ASSUMPTIONS = [
-    "engine E: every word of the bounded grammar scheme{http,https,ftp} . port?{-, t:80} . hosts{com,a,www,www2,WWW}^0..3 not ending in two www . up to 2 (thorough 3) tail stems from {p:x, p:s:http, p:s:https, p:h:www, q:h:com, f:www} is expanded; the 'is a variation of' graph is closed under expansion (every member of every result is expanded too)",
+    "engine E: every word of the bounded grammar scheme{http,https,ftp} . port?{-, t:80} . hosts{com,a,www,www2,WWW,wh}^0..3 not ending in two www . up to 2 (thorough 3) tail stems from {p:x, p:s:http, p:s:https, p:h:www, q:h:com, f:www} is expanded; the 'is a variation of' graph is closed under expansion (every member of every result is expanded too)",
     "'changes nothing but the scheme stem and a trailing www host stem' is checked on stems: same port and tail stems, hosts equal up to one trailing h:www, scheme equal or http<->https",
     "non-vacuity: the scheme-flipped LRU must be listed whenever the scheme is http(s)",
     "second part: for every class, a page of each member is inserted first on a fresh index (default rule: subdomain) and the created prefix sets are compared",
 ]
 SCHEMES = [b"s:http|", b"s:https|", b"s:ftp|"]
 PORTS = [b"", b"t:80|"]
-HOSTS = [b"h:com|", b"h:a|", b"h:www|", b"h:www2|", b"h:WWW|"]  # www2: a host that merely starts with "www"
+HOSTS = [b"h:com|", b"h:a|", b"h:www|", b"h:www2|", b"h:WWW|", b"h:wh|"]  # wh: ends in characters of "h:www|"  # www2: a host that merely starts with "www"
 TAILS = [b"p:x|", b"p:s:http|", b"p:s:https|", b"p:h:www|", b"q:h:com|", b"f:www|"]
 
 
